@@ -1,0 +1,11 @@
+//go:build verif
+
+// Contracts for the deductive verifier in /verif (comment-only file; see /verif/DESIGN.md).
+
+package mmap
+
+// File mapping is outside the modelled state: the content is an arbitrary string/slice, the returned
+// close function only unmaps.
+//@ func ReadFile
+//@   trusted
+//@   modifies nothing
